@@ -129,6 +129,7 @@ func runC02(c *report.Ctx) {
 	rulePayloadBeforeFeeLoop(c)
 	ruleReservationCacheOwnership(c)
 	ruleEveryInputSized(c)
+	ruleImportAppliesSpends(c) // an imported wallet must not be left holding coins the chain already spent
 
 	// ---- reservation ---------------------------------------------------------------
 	c.Rule("reservation", "every success return of a Create* method passes MarkUsedUTXO, so a second draft cannot select the same coins", 4)
